@@ -7,7 +7,7 @@
    about expiry, rotation and Send below.  Not proved: convergence of two whole
    channels from states with half-finished handshakes left by an adversarial
    prefix; that is explored on the model-tied harness (not a proof). *)
-From P2PV Require Import Lib.Base Model.Handshake Model.Channel Proofs.HandshakeP Proofs.ChannelP Proofs.ChannelNP Proofs.ChannelLiveP.
+From P2PV Require Import Lib.Base Model.Handshake Model.Channel Proofs.HandshakeP Proofs.ChannelP Proofs.ChannelNP Proofs.ChannelLiveP Model.Timer Proofs.TimerP.
 From Coq Require Import Lia ZifyBool ZifyN.
 Open Scope N_scope.
 
@@ -126,6 +126,20 @@ Example C07_establish_not_vacuous :
   orank_ne (ch_s0 B) 77 /\ orank_ne (ch_s1 B) 77 /\ (9 <? ch_rts B) = false.
 Proof. exact establish_not_vacuous. Qed.
 
+(* ---- the timer behind retransmission (p/p2pke/timer.go) ---- *)
+
+(* a Reset made by the timer's own callback is not lost: an armed timer whose
+   callback re-arms it b more times fires exactly b+1 times, then is idle.  This is
+   what keeps handshake messages being retransmitted until they are answered. *)
+Theorem C07_timer_keeps_firing : forall b t fuel, t_pending t = true -> t_budget t = b -> (b < fuel)%nat ->
+  let t' := quiesce fuel t in t_fires t' = (t_fires t + S b)%nat /\ t_pending t' = false.
+Proof. exact fires_until_budget_spent. Qed.
+
+Theorem C07_timer_stopped_is_silent : forall t evs, t_pending t = false ->
+  (forall e, In e evs -> e = TElapse \/ e = TStop) ->
+  t_fires (trun t evs) = t_fires t /\ t_pending (trun t evs) = false.
+Proof. exact stopped_never_fires. Qed.
+
 Print Assumptions C07_session_recovers.
 Print Assumptions C07_no_idle_teardown.
 Print Assumptions C07_rotation_keeps_previous.
@@ -133,3 +147,5 @@ Print Assumptions C07_send_when_current.
 Print Assumptions C07_rekey_starts_handshake.
 Print Assumptions C07_channel_establishes.
 Print Assumptions C07_simultaneous_open_converges.
+Print Assumptions C07_timer_keeps_firing.
+Print Assumptions C07_timer_stopped_is_silent.
